@@ -498,6 +498,22 @@ def main():
         for names in perms:
             for g in connected_graphs(n, list(names)):
                 items.append((g,))
+    # every connected graph on 6 nodes up to isomorphism (networkx atlas) under several name assignments: two equally long
+    # routes sharing their first step only exist from 5-6 nodes on
+    import random as _random
+    import networkx as nx
+    from networkx.generators.atlas import graph_atlas_g
+    six = [g for g in graph_atlas_g() if g.number_of_nodes() == 6 and nx.is_connected(g)]
+    names6 = ['alpha', 'beta', 'gamma', 'delta', 'eps', 'zeta']
+    labelings = [list(names6), list(reversed(names6))]
+    rnd = _random.Random(run.seed + 17)
+    for _ in range(0 if quick else 4):
+        lab = list(names6)
+        rnd.shuffle(lab)
+        labelings.append(lab)
+    for g in six:
+        for lab in labelings:
+            items.append(({lab[i]: [lab[j] for j in g.neighbors(i)] for i in range(6)},))
     # the driver's own layout graphs
     items.append(({'v_parallel_2d': ['mode_solve', 'v_parallel_1d'], 'mode_solve': ['v_parallel_2d'], 'v_parallel_1d': ['v_parallel_2d', 'poloidal'], 'poloidal': ['v_parallel_1d']},))
     items.append(({'flux_surface': ['v_parallel'], 'v_parallel': ['flux_surface', 'poloidal'], 'poloidal': ['v_parallel']},))
@@ -532,7 +548,7 @@ def main():
             run.merge(setupsave_item((n, given)))
     run.stubs = LS.stubs() + ['set / min in a copy of pygyro.model.layout: symbolic iteration-order priorities', 'mpi4py.MPI: lib/simmpi (raises on mismatch, detects deadlock)',
                               'os / open in a copy of savingTools']
-    run.bounds = dict(routes='every connected graph on <= %d named nodes (several name assignments), all iteration orders' % nmax,
+    run.bounds = dict(routes='every connected graph on <= %d named nodes (all / several name assignments) and all 112 connected 6-node graphs up to isomorphism under %d name assignments, all iteration orders' % (nmax, len(labelings)),
                       matching='driver swapper, grids %s, transposition sequences of length 3-4, extents <= 3' % ('(1,2),(2,2)' if quick else 'up to (3,3)'),
                       branches='4-D grid (4,3,4,3), symbolic selections / fixed indices, with and without a plot-only rank')
     run.outside = ['layout graphs with more nodes', 'DiagnosticCollector.reduce and the driver loop (straight-line sequences; covered through C17/C18 runs)',
